@@ -52,3 +52,35 @@ func VerifFilter() {
 	}
 	verifrt.Assert(k == len(out), "nothing else in the filtered list")
 }
+
+// VerifNames: standalone extractor names are unique and every advertised name resolves.
+func VerifNames() {
+	names := make([]string, 0, len(extractorNames))
+	for name := range extractorNames {
+		names = append(names, name)
+	}
+	for i := range names {
+		for j := i + 1; j < len(names); j++ {
+			if names[j] < names[i] {
+				names[i], names[j] = names[j], names[i]
+			}
+		}
+	}
+	verifrt.ObserveInt("names", len(names))
+	name := names[verifrt.Choice("name", len(names))]
+	fns := extractorNames[name]
+	verifrt.Assert(len(fns) >= 1, "an advertised name has an initialiser")
+	if len(fns) == 0 {
+		return
+	}
+	if _, isPlugin := All[name]; isPlugin {
+		verifrt.Reach("plugin-name")
+		verifrt.Assert(len(fns) == 1, "plugin names are unique")
+		ex, err := ExtractorFromName(name)
+		verifrt.Assert(err == nil && ex != nil && ex.Name() == name, "resolving a plugin's own name returns that plugin")
+	} else {
+		verifrt.Reach("group-name")
+		exs, err := ExtractorsFromNames([]string{name})
+		verifrt.Assert(err == nil && len(exs) >= 1 && len(exs) <= len(fns), "every advertised group name resolves to its plugins")
+	}
+}
